@@ -73,6 +73,28 @@ AVOID3 = {
  'C19': 'where fixed parameters are written into the point scratch (Solver::new / get_err)',
  'C20': 'saving / restoring the choice pointer around calls in the x86_64 point JIT',
 }
+AVOID4 = {
+ 'C01': 'slot indexing in the interpreter point evaluator (fidget-core/src/vm/mod.rs)',
+ 'C02': 'the displacement encoding of input loads in the x86_64 JIT point evaluator',
+ 'C03': 'the round sequence of the x86_64 JIT interval evaluator',
+ 'C04': 'the (Memory, Unassigned) arm of RegisterAllocator::op_reg_reg',
+ 'C05': 'Load / Store handling in the interpreter gradient evaluator',
+ 'C06': 'pixel_offset / root-tile offsets in fidget-raster',
+ 'C07': 'the root tile grid order in the voxel renderer',
+ 'C08': 'the cell classification of a NaN interval in the octree builder',
+ 'C09': 'the per-worker normal / depth scratch of the voxel renderer',
+ 'C10': 'the growth path of the simplification workspace binding table',
+ 'C11': 'the short-batch scratch buffers of the JIT bulk evaluators',
+ 'C12': 'the recursive fast path of impl Drop for Tree',
+ 'C13': 'the leaf shortcut of Tree::remap_xyz',
+ 'C14': 'register save / restore offsets around calls in the x86_64 JIT point evaluator',
+ 'C15': 'the reserved-register check in Bytecode::new',
+ 'C16': 'the radius-zero special case of Blend',
+ 'C17': 'integer literal coercion in fidget-rhai',
+ 'C18': 'the order of resize and drag handling in Canvas2::interact',
+ 'C19': 'the input pointer table of the JIT bulk evaluators',
+ 'C20': 'the decided / undecided test of the x86_64 interval build_min',
+}
 for pid in (ids or props):
     p = props[pid]
     avoid = ''
@@ -87,6 +109,13 @@ for pid in (ids or props):
                  "Prefer a change whose trigger depends on SCALE or a BOUNDARY: a count, length, depth or index at or beyond a threshold (for example more than 8, 12, 64, 255, 256 or 65535 of something; "
                  "an image, grid or slice size that is exactly a multiple, or one more than a multiple, of a tile or SIMD width; the largest or smallest allowed value of a parameter), "
                  "or on shared infrastructure that the property only reaches indirectly (LRU, variable map, tape data, operand encoding, caches, workspaces). "
+                 "The existing tests must still pass, so the trigger has to lie beyond what they exercise.\n")
+    if 'seed5' in root:
+        avoid = (f"\nFour earlier experiments already used (1) {AVOID[pid]}, (2) {AVOID2[pid]}, (3) {AVOID3[pid]} and (4) {AVOID4[pid]}. Pick a mechanism different from all four, in a different function, "
+                 "and aim at a clause of the property statement, a part of its quantifier, or one of the listed anchor files / mechanisms that none of the four touches. "
+                 "Prefer a change that needs a HISTORY or a COMBINATION to manifest rather than a single unusual value: state carried from one call to the next (a cache, a reused buffer, a recycled object, "
+                 "a flag that is set in one place and read in another), two cooperating sites that each look fine alone, a particular order of operations or of operands, a particular nesting, "
+                 "a particular thread interleaving or cancellation point, or a fast path that is only taken after a slow path has run. "
                  "The existing tests must still pass, so the trigger has to lie beyond what they exercise.\n")
     open(f'{root}/prompt_{pid}.txt', 'w').write(f"""You are helping to evaluate a verification suite for the Rust library mkeeter/fidget (implicit-surface math expressions compiled to tapes, evaluated by an interpreter VM or an x86_64 JIT, rendered or meshed). You do NOT see the verification suite. Your job is to write ONE realistic, subtle breaking change to the library.
 
